@@ -8,4 +8,12 @@ HasInt(tok) == tok \in DOMAIN Ints /\ Len(Ints[tok]) = 1
 IntOf(tok)  == IF HasInt(tok) THEN Ints[tok][1] ELSE 0
 IsIntList(tok) == tok \in DOMAIN Ints
 IntsOf(tok) == IF tok \in DOMAIN Ints THEN Ints[tok] ELSE <<>>
+IntSet(tok) == {IntsOf(tok)[k] : k \in 1..Len(IntsOf(tok))}
+\* element tokens of a list token; raw text of identifier-like string tokens
+Elems == IF "elems" \in DOMAIN File THEN File.elems ELSE <<>>
+Strs  == IF "strs" \in DOMAIN File THEN File.strs ELSE <<>>
+IsList(tok) == tok \in DOMAIN Elems
+ElemsOf(tok) == IF tok \in DOMAIN Elems THEN Elems[tok] ELSE <<>>
+HasStr(tok) == tok \in DOMAIN Strs
+StrOf(tok) == IF tok \in DOMAIN Strs THEN Strs[tok] ELSE ""
 =============================================================================
